@@ -448,13 +448,37 @@ class Body:
                         continue
                     return src[0], src
                 return None
+            # derived mutable references: `r = f(&mut L, ..)` with r: &mut _ aliases L
+            for _ in range(3):
+                for pos, t in self.call_sites():
+                    if t.get('rty', '').startswith('&mut ') and len(t['dest']) == 1 and t['dest'][0] not in base:
+                        for a in t['args']:
+                            p = a.get('m') or a.get('c')
+                            if p and len(p) == 1 and p[0] in base:
+                                r = root(p[0])
+                                if r:
+                                    base[t['dest'][0]] = [r[0]]
+                                    break
             m = defaultdict(list)
+            # closures capturing `&mut L`: passing the closure to a call may mutate L
+            clos = defaultdict(list)
+            for pos, s in self.stmts():
+                if s.get('k') == 'assign' and s['r'].get('k') == 'agg' and s['r'].get('ak') == 'closure' and len(s['p']) == 1:
+                    for o in s['r']['ops']:
+                        p = o.get('m') or o.get('c')
+                        if p and len(p) == 1 and p[0] in base:
+                            r = root(p[0])
+                            if r:
+                                clos[s['p'][0]].append(r)
             for pos, t in self.call_sites():
                 for a in t['args']:
                     p = a.get('m') or a.get('c')
                     if p and len(p) == 1 and p[0] in base:
                         r = root(p[0])
                         if r:
+                            m[r[0]].append((pos, t, r[1]))
+                    if p and len(p) == 1 and p[0] in clos:
+                        for r in clos[p[0]]:
                             m[r[0]].append((pos, t, r[1]))
             self._mutrefs = m
         return self._mutrefs
@@ -787,6 +811,8 @@ class Body:
         results = set()
         seen = set()
         todo = [(start[0], start[1], facts, kind)]
+        if start[0] in avoid_blocks:
+            todo = []
         steps = 0
         while todo:
             b, i, fx, kd = todo.pop()
@@ -969,6 +995,9 @@ def field_of(e, name):
         return ('phi', tuple(dict.fromkeys(field_of(a, name) for a in e[1])))
     if e[0] == 'ready' and name == '0':
         return e[1]
+    if e[0] == 'bin' and e[1].endswith('WithOverflow'):
+        # checked arithmetic in debug builds: (a op b).0 is the value, .1 the overflow flag
+        return ('bin', e[1][:-len('WithOverflow')], e[2], e[3]) if name == '0' else ('field', e, name)
     if e[0] == 'variant' and e[2] == 'Some' and name == '0' and e[1][0] == 'call' and (e[1][1] or '').endswith('::next') and e[1][3]:
         # `for x in coll`: x is an element of the iterated collection
         it = e[1][3][0]
